@@ -83,20 +83,38 @@ fn build_registry() -> Registry {
     seeds.push(SeedFile::new("exe", "url-at-end", launcher_exe("https://launcher.finalfantasyxiv.com/v700/", 64, 0, false)));
     // patches
     let exps: Vec<(String, Vec<u8>)> = crate::props::c03::seed_exps().into_iter().map(|e| (format!("sqpack/{}/", e), vec![])).collect();
-    for (n, bytes, initial, eof_at) in crate::props::c03::seed_patches(&ctx, 4 * k) {
-        let mut tree = exps.clone();
-        tree.extend(initial);
-        let mut s = SeedFile::new("zipatch", n, bytes.clone());
-        s.args = vec![bytes.clone(), pack_files(&tree), vec![0]];
+    {
+        let (bytes, eof_at) = all_chunks_patch();
+        let mut s = SeedFile::new("zipatch", "all-chunks", bytes.clone());
+        s.args = vec![bytes.clone(), pack_files(&exps), vec![0]];
         s.magic = 12;
         s.must_fail_below = Some(eof_at + 8);
         s.marks = chunk_marks(&bytes);
         seeds.push(s);
     }
     {
-        let (bytes, eof_at) = all_chunks_patch();
-        let mut s = SeedFile::new("zipatch", "all-chunks", bytes.clone());
-        s.args = vec![bytes.clone(), pack_files(&exps), vec![0]];
+        // an AddFile whose first block is empty and whose second block carries the file: valid, and the place
+        // where block-size arithmetic decides whether the reader makes progress
+        use crate::build::deflate::Mode;
+        use crate::build::zipatch as zp;
+        let mut b = zp::file_header();
+        b.extend_from_slice(&zp::target_info(0, -1, false, 0));
+        let blocks = vec![zp::file_block(b"", Mode::Raw), zp::file_block(b"thirteen byte", Mode::Raw), zp::file_block(b"", Mode::Raw)];
+        b.extend_from_slice(&zp::file_op(b'A', 0, 13, 0, "boot/empty-first.bin", &blocks));
+        let eof_at = b.len();
+        b.extend_from_slice(&zp::eof());
+        let mut s = SeedFile::new("zipatch", "empty-blocks", b.clone());
+        s.args = vec![b.clone(), pack_files(&exps), vec![0]];
+        s.magic = 12;
+        s.must_fail_below = Some(eof_at + 8);
+        s.marks = chunk_marks(&b);
+        seeds.push(s);
+    }
+    for (n, bytes, initial, eof_at) in crate::props::c03::seed_patches(&ctx, 4 * k) {
+        let mut tree = exps.clone();
+        tree.extend(initial);
+        let mut s = SeedFile::new("zipatch", n, bytes.clone());
+        s.args = vec![bytes.clone(), pack_files(&tree), vec![0]];
         s.magic = 12;
         s.must_fail_below = Some(eof_at + 8);
         s.marks = chunk_marks(&bytes);
@@ -184,6 +202,8 @@ fn leak_probes(_: &Ctx) -> Vec<RCase> {
         c.reps = 120;
         v.push(c);
     }
+    // every single-field corruption of that block's 16-byte header (sizes 0, huge, off by a block ...), repeated
+    v.extend(header_leak_cases("zipatch", "leak:block-header-field", &[patch.clone(), s.args[1].clone(), vec![0]], 0, at, 16, 120));
     // control: the undamaged patch, repeated (must not be reported)
     let mut c = RCase::explicit("zipatch", "leak:control-valid-patch", vec![patch, s.args[1].clone(), vec![0]]);
     c.reps = 120;
@@ -224,7 +244,11 @@ fn truncations(ctx: &Ctx) -> Vec<RCase> {
 }
 
 fn fields(ctx: &Ctx) -> Vec<RCase> {
-    field_cases(registry(), ctx.tier.pick(768, 8192), ctx.tier.pick(2, 99))
+    field_cases(registry(), ctx.tier.pick(768, 8192), ctx.tier.pick(3, 99))
+}
+
+fn text_fields(_: &Ctx) -> Vec<RCase> {
+    text_field_cases(registry(), &[("cfg", b"\t<>"), ("exl", b","), ("patchlist-boot", b"\t:"), ("patchlist-game", b"\t,:")])
 }
 
 fn seeds_as_they_are(_: &Ctx) -> Vec<RCase> {
@@ -411,6 +435,7 @@ pub fn property() -> Property {
             Box::new(Part { name: "seeds", driver: Driver::Enum(seeds_as_they_are), prop, exhaustive: true }),
             Box::new(Part { name: "io-faults", driver: Driver::Enum(io_faults), prop, exhaustive: true }),
             Box::new(Part { name: "leak-probes", driver: Driver::Enum(leak_probes), prop, exhaustive: false }),
+            Box::new(Part { name: "text-fields", driver: Driver::Enum(text_fields), prop, exhaustive: true }),
             Box::new(Part { name: "truncations", driver: Driver::Enum(truncations), prop, exhaustive: true }),
             Box::new(Part { name: "fields", driver: Driver::Enum(fields), prop, exhaustive: true }),
             Box::new(Part { name: "random-mutants", driver: Driver::Gen(mutants, 40_000, 3_000_000), prop, exhaustive: false }),
